@@ -44,6 +44,11 @@ func newTableEnv(c *load.Ctx) *tableEnv {
 	if k := full(pkgJSON, "Number.Cmp"); k != "" {
 		e.cfg.Intrinsics[k] = func(in *pe.Interp, args []pe.Value) (pe.Value, bool) {
 			a, b := numName(args[0]), numName(args[1])
+			// one atom per unordered pair: comparing (b,a) after (a,b) must give the mirrored answer
+			if in.Chosen("ord("+b+","+a+")") != "" {
+				o := in.Choose("ord("+b+","+a+")", []string{"<", "=", ">"}) - 1
+				return int64(-o), true
+			}
 			o := in.Choose("ord("+a+","+b+")", []string{"<", "=", ">"}) - 1
 			return int64(o), true
 		}
